@@ -387,6 +387,19 @@ def body_multi(how, a, b, va, vb, restart_between):
                     model[pa] = vals_a[1 - va]
                 if codes.get(PROPNAMES[pb]) == "200":
                     model[pb] = None
+            # instructions on ONE property are processed in document order (RFC 4918 9.2): remove-then-set leaves the
+            # value, set-then-remove leaves nothing
+            for order in ((False, True), (True, False)):
+                instr = [(is_set, pa, vals_a[va] if is_set else None) for is_set in order]
+                if not check(app, target):
+                    return (False, kind + ":before-order")
+                r, codes = _multi_request(app, "PROPPATCH", target + "/", instr)
+                if codes is None:
+                    return (False, kind + ":no-answer")
+                if codes.get(PROPNAMES[pa]) == "200":
+                    model[pa] = vals_a[va] if order[1] else None
+                if not check(app, target):
+                    return (False, kind + ":document-order")
         else:
             method = "MKCOL" if kind == "mkcol" else "MKCALENDAR"
             target = "/user/calendars/fresh"
